@@ -15,10 +15,6 @@ calendar parser (`lib : TimeLib`).
 namespace Snel.Props.C06
 open Snel.Validate
 
-/-- "accepted": `validate_payload` returns `Ok` and the time normaliser returns `Ok`. -/
-abbrev accepts (lib : TimeLib) (schema : Schema) (payload : Json) : Prop :=
-  okB (admit lib schema payload) = true
-
 /-! ## Payload admission = conformance -/
 
 /-- Main theorem. For every schema DEFINE can produce (every alias, `T | null`, enums, time
@@ -148,10 +144,6 @@ theorem C06_blank_iff (s : String) : blank s = true ↔ ∀ c ∈ s.toList, isWs
   unfold blank
   rw [List.isEmpty_iff]
   exact trimChars_nil_iff _
-
-/-- States built by DEFINE commands: every registered schema came from specs. -/
-def Definable (st : St) : Prop :=
-  ∀ et schema, st.schemas.lookup et = some schema → SchemaNoDeepTime schema
 
 theorem C06_definable_empty : Definable St.empty := by
   intro et schema h; cases h
